@@ -50,6 +50,13 @@ impl World {
 			return false;
 		}
 		self.out.bump("fault:crash_between_actions");
+		// transactions handed to the broadcaster but not yet relayed may die with the process
+		// (broadcasting is best effort; the library re-broadcasts what still matters)
+		let lose = pick.iter().map(|x| *x as u32).sum::<u32>() % 3 == 0 && !pick.iter().all(|x| *x == 0);
+		if lose && self.nodes[n].broadcaster.len() > 0 && self.cfg.profile == "deadlines" {
+			self.nodes[n].broadcaster.truncate(0);
+			self.out.bump("fault:unrelayed_broadcasts_lost_in_crash");
+		}
 		self.crash_node(n, pick, false);
 		true
 	}
